@@ -1,0 +1,31 @@
+//! Verification hooks (property C20): runs the crate's own `NaiveBayes::predict_inplace`
+//! (the arg-max over the class hash map) on a caller-supplied joint log-likelihood table.
+//! Compiled only with `--cfg linfa_verif`.
+use crate::base_nb::NaiveBayes;
+use linfa::{Float, Label};
+use ndarray::{Array1, Array2, ArrayView2};
+use std::collections::HashMap;
+
+struct FixedJll<F, L: std::hash::Hash + Eq> {
+    jll: HashMap<L, Array1<F>>,
+}
+
+impl<'a, F: Float, L: Label + Ord> NaiveBayes<'a, F, L> for FixedJll<F, L> {
+    fn joint_log_likelihood(&self, _x: ArrayView2<F>) -> HashMap<&L, Array1<F>> {
+        self.jll.iter().map(|(k, v)| (k, v.clone())).collect()
+    }
+}
+
+/// `jll[c][i]` = joint log likelihood of sample `i` under class `classes[c]`
+pub fn predict_from_jll<F: Float, L: Label + Ord>(classes: &[L], jll: &[Vec<F>]) -> Vec<L> {
+    let n = jll.first().map(|r| r.len()).unwrap_or(0);
+    let mut map = HashMap::new();
+    for (c, row) in classes.iter().zip(jll.iter()) {
+        map.insert(c.clone(), Array1::from(row.clone()));
+    }
+    let model = FixedJll { jll: map };
+    let x = Array2::<F>::zeros((n, 1));
+    let mut y = Array1::from_elem(n, L::default());
+    NaiveBayes::predict_inplace(&model, &x, &mut y);
+    y.to_vec()
+}
